@@ -2,7 +2,7 @@ import ModelD.Csv
 import ModelD.YamlScalar
 /-! # Model of `pydrex.io.save_scsv` / `read_scsv` (C16)
 
-Function by function after `src/pydrex/io.py` (at commit 3a0fc08: header scalars quoted, fence only before the
+Function by function after `src/pydrex/io.py` (at commit cc8cd84: header scalars quoted, fence only before the
 header is closed, no `NaN` special case, typed parsing errors reported as SCSVError):
 `_validate_scsv_schema` → `validate`, `_parse_scsv_bool` → `parseBool`, `_parse_scsv_cell` →
 `parseCell`, `write_scsv_header` → `headerLines`, `save_scsv` → `save`, `read_scsv` → `read`.
@@ -134,7 +134,7 @@ def validateFields : List Field → Except Err Bool
   | [] => .ok true
   | f :: fs =>
     match f.name with
-    | none => .error .key                                  -- `field["name"]`
+    | none => .ok false                                    -- `"name" not in field`
     | some n =>
       if !isIdentifier n then .ok false
       else match typeOf f.typeName with
@@ -275,7 +275,7 @@ def saveBody (E : FloatExt) (s : Schema) (data : List (List Val)) : Except Err (
 /-- the lines (without terminators) of the file written by `save_scsv(file, schema, data)` -/
 def saveLines (E : FloatExt) (s : Schema) (data : List (List Val)) : Except Err (List Str) :=
   match data with
-  | [] => .error .index                                     -- `len(data[0])`
+  | [] => .error .scsv                                      -- `len(data) == 0`
   | c0 :: cs =>
     if cs.any (fun c => c.length ≠ c0.length) then .error .scsv
     else valueToScsv (saveBody E s data)
